@@ -107,6 +107,21 @@ def run_script(ctx, name, lines, kind="asan", impl_mode="run", want_oracle=True,
     res = {"script": sp, "impl_rc": rc, "impl_err": err, "mismatches": [], "oracle_fails": [], "n_lines": len(lines)}
     impl_lines = open(oi, errors="replace").read().split("\n")
     res["impl_lines"] = impl_lines
+    if getattr(ctx, "host_locale", False) and impl_mode == "run":
+        # the same script in a host program that installed its own global locale: what
+        # goes on the wire and what to_string / the stream inserters give may not depend
+        # on it.  Compared on the lines the harness prints in hex (locale-proof).
+        ol = os.path.join(ctx.dir, name + ".impl-locale.out")
+        env2 = dict(env)
+        env2["VERIF_HOST_LOCALE"] = "1"
+        rc2, err2 = run_driver(ctx.impl[kind], impl_mode, sp, ol, env=env2)
+        keep = ("W ", "TS ", "SH ", "SHS ", "> CASE")
+        a = [l for l in impl_lines if l.startswith(keep)]
+        b = [l for l in open(ol, errors="replace").read().split("\n") if l.startswith(keep)]
+        if a != b:
+            k = next((i for i in range(min(len(a), len(b))) if a[i] != b[i]), min(len(a), len(b)))
+            case = next((x.split()[2] for x in reversed(a[:k + 1]) if x.startswith("> CASE")), "?")
+            res["locale_diff"] = (case, a[k] if k < len(a) else "<missing>", b[k] if k < len(b) else "<missing>")
     if want_model:
         rcm, errm = run_driver(ctx.model, "model", sp, om)
         if rcm != 0:
